@@ -15,7 +15,12 @@ func readMessage(b *pageBuffer, d *decoder) (attributes int8, baseOffset, timest
 	}
 
 	baseOffset = md.readInt64()
-	md.remain = int(md.readInt32())
+	messageSize := md.readInt32()
+	if messageSize < 0 {
+		err = Errorf("invalid negative message size: %d", messageSize)
+		return
+	}
+	md.remain = int(messageSize)
 
 	crc := uint32(md.readInt32())
 	md.setCRC(crc32.IEEETable)
